@@ -605,6 +605,57 @@ Section Model.
       end
     end.
 
+  (* ---- compat.go: StoreAppendBatch, non-exact items of one engine ------------------------- *)
+
+  (* one item = (channel, mode 0 strict / 1 server-allocated ids, records).  Every
+     channel's rows are validated against the durable store (not against the rows
+     the other items stage) and ALL of them are committed in ONE physical batch,
+     channel by channel in key order. *)
+  Definition item := (N * N * list rec)%type.
+
+  Definition count_chan (items : list item) (c : N) : nat :=
+    length (filter (fun it : item => fst (fst it) =? c) items).
+
+  (* result per item: (error class or 0, base offset, last offset) *)
+  Fixpoint cbatch_items (st : mstate) (all items : list item)
+    : mstate * list (N * N * N) * list (N * kbatch) * list (N * N) :=
+    match items with
+    | [] => (st, [], [], [])
+    | (c, m, recs) :: rest =>
+      if (1 <? count_chan all c)%nat then
+        let '(st', rs, bs, ls) := cbatch_items st all rest in (st', (EInvalid, 0, 0) :: rs, bs, ls)
+      else
+        let mode := if m =? 1 then AppendServerAllocatedMessageID else AppendStrict in
+        let '(st1, base) := loadLEOLocked st c in
+        match recs with
+        | [] => let '(st', rs, bs, ls) := cbatch_items st1 all rest in (st', (0, base, base) :: rs, bs, ls)
+        | _ =>
+          match compatibilityRowsFromRecords c (base + 1) recs with
+          | inr e => let '(st', rs, bs, ls) := cbatch_items st1 all rest in (st', (e, 0, 0) :: rs, bs, ls)
+          | inl rows =>
+            match validate_rows st1 c rows (Seen [] []) mode with
+            | (st2, inr e) =>
+              let '(st', rs, bs, ls) := cbatch_items st2 all rest in (st', (toChannelError e, 0, 0) :: rs, bs, ls)
+            | (st2, inl _) =>
+              let last := base + N.of_nat (length recs) in
+              let '(st', rs, bs, ls) := cbatch_items st2 all rest in
+              (st', (0, base, last) :: rs,
+               (c, stageMessageRows c rows ++ stageCatalogForAppend c (first_seq rows)) :: bs,
+               (c, last) :: ls)
+            end
+          end
+        end
+    end.
+
+  Definition CBatch (st : mstate) (items : list item) : mstate * list (N * N * N) :=
+    let '(st1, rs, bs, ls) := cbatch_items st items items in
+    match bs with
+    | [] => (st1, rs)
+    | _ =>
+      let b := flat_map snd (sort_by (fun x : N * kbatch => fst x) bs) in
+      (fold_left (fun s cl => set_leo s (fst cl) (snd cl)) ls (commit st1 b), rs)
+    end.
+
   (* ---- read API ------------------------------------------------------------------------ *)
 
   Definition Read (st : mstate) (c fromSeq : N) (limit maxb : Z) : res (list row) :=
@@ -683,6 +734,7 @@ Section Model.
   | OAppend (c mode base : N) (recs : list rec)
   | OApply (c base : N) (recs : list rec) (ck : option (N * N * N)) (ep : option (N * N))
   | OCApp (c mode : N) (recs : list rec)
+  | OCBatch (items : list (N * N * list rec))
   | OTrunc (c fromSeq : N)
   | OCTrunc (c to : N)
   | OTrim (c through : N) (maxMessages maxBytes : Z)
@@ -721,14 +773,15 @@ Section Model.
   | XHit (h : option (N * N * N * N))       (* seq, id, offset, hash *)
   | XNO (n : option N)
   | XTriple (t : option (N * N * N))
-  | XPairs (l : list (N * N)).
+  | XPairs (l : list (N * N))
+  | XBatch (l : list (N * N * N)).
 
   Definition out_of {A} (r : res A) (f : A -> out) : out :=
     match r with inl a => f a | inr e => XErr e end.
 
   Definition is_mutation (o : op) : bool :=
     match o with
-    | OAppend _ _ _ _ | OApply _ _ _ _ _ | OCApp _ _ _ | OTrunc _ _ | OCTrunc _ _ | OTrim _ _ _ _
+    | OAppend _ _ _ _ | OApply _ _ _ _ _ | OCApp _ _ _ | OCBatch _ | OTrunc _ _ | OCTrunc _ _ | OTrim _ _ _ _
     | OCkpt _ _ _ _ | OCkptM _ _ _ _ _ _ | ORelease _ => true
     | _ => false
     end.
@@ -738,7 +791,7 @@ Section Model.
     | OAppend c _ _ _ | OApply c _ _ _ _ | OCApp c _ _ | OTrunc c _ | OCTrunc c _ | OTrim c _ _ _
     | OCkpt c _ _ _ | OCkptM c _ _ _ _ _ | ORelease c | ORead c _ _ _ | ORRead c _ _ _ | OGet c _
     | OById c _ | OByCno c _ _ _ | OIdem c _ _ | OLastS c _ _ | OLeo c | ORet c | OLoadCk c | OHist c => c
-    | OReopen => 0
+    | OReopen | OCBatch _ => 0
     end.
 
   (* closing the whole database drops every canonical entry and the warm cache *)
@@ -754,6 +807,7 @@ Section Model.
       (st', out_of r (fun x => let '(b, l, n) := x in XApp b l n))
     | OCApp c mode recs =>
       let '(st', r) := CAppend st c recs mode in (st', out_of r XN)
+    | OCBatch items => let '(st', rs) := CBatch st items in (st', XBatch rs)
     | OTrunc c f => let '(st', r) := TruncateFrom st c f in (st', out_of r (fun _ => XOk))
     | OCTrunc c t => let '(st', r) := CTruncate st c t in (st', out_of r (fun _ => XOk))
     | OTrim c t mm mb =>
@@ -782,38 +836,62 @@ Section Model.
     | OHist c => (st, XPairs (loadHistory (st_kv st) c))
     end.
 
-  (* what the harness reads after a mutation: LEO, then Read(1, {}) *)
-  Inductive dump := D (c : N) (leo : N + N) (rows : list msg + N).
+  (* what the harness reads after a mutation: LEO, then Read(1, {}) printed in
+     compact form (seq, id, hash), then -- after a successful append -- the
+     complete rows of the appended range, Read(base, {Limit: count}) *)
+  Inductive dump := D (c : N) (leo : N + N) (rows : list (N * N * N) + N) (news : list msg + N).
 
-  Definition dump_chan (st : mstate) (c : N) : mstate * dump :=
+  Definition compact (r : row) : N * N * N := (r_seq r, r_id r, r_hash r).
+
+  (* the appended range reported by a successful append-type op *)
+  Definition new_range (o : op) (x : out) : option (N * Z) :=
+    match o, x with
+    | (OAppend _ _ _ _ | OApply _ _ _ _ _), XApp b _ n => if n =? 0 then None else Some (b, Z.of_N n)
+    | OCApp _ _ recs, XN base => match recs with [] => None | _ => Some (base + 1, Z.of_nat (length recs)) end
+    | _, _ => None
+    end.
+
+  Definition dump_chan (st : mstate) (c : N) (nr : option (N * Z)) : mstate * dump :=
     let '(st', leo) := loadLEOLocked st c in
-    (st', D c (inl leo) (match Read st' c 1 0 0 with
-                         | inl rs => inl (map messageFromRow rs)
-                         | inr e => inr e
-                         end)).
+    (st', D c (inl leo)
+            (match Read st' c 1 0 0 with
+             | inl rs => inl (map compact rs)
+             | inr e => inr e
+             end)
+            (match nr with
+             | None => inl []
+             | Some (f, n) => match Read st' c f n 0 with
+                              | inl rs => inl (map messageFromRow rs)
+                              | inr e => inr e
+                              end
+             end)).
 
   Fixpoint dump_chans (st : mstate) (cs : list N) : mstate * list dump :=
     match cs with
     | [] => (st, [])
-    | c :: rest => let '(st1, d) := dump_chan st c in
+    | c :: rest => let '(st1, d) := dump_chan st c None in
                    let '(st2, ds) := dump_chans st1 rest in (st2, d :: ds)
     end.
 
   Definition all_chans : list N := [0; 1; 2].
 
-  Definition step_dump (st : mstate) (o : op) : mstate * out * list dump :=
+  (* [compact]: long histories are run without the per-mutation dumps *)
+  Definition step_dump (compact : bool) (st : mstate) (o : op) : mstate * out * list dump :=
     let '(st1, x) := step st o in
     let '(st2, ds) := match o with
                       | OReopen => dump_chans st1 all_chans
-                      | _ => if is_mutation o then dump_chans st1 [op_chan o] else (st1, [])
+                      | OCBatch _ => if compact then (st1, []) else dump_chans st1 all_chans
+                      | _ => if is_mutation o && negb compact
+                             then let '(st2, d) := dump_chan st1 (op_chan o) (new_range o x) in (st2, [d])
+                             else (st1, [])
                       end in
     (st2, x, ds).
 
-  Fixpoint run (st : mstate) (ops : list op) : mstate * list (out * list dump) :=
+  Fixpoint run (compact : bool) (st : mstate) (ops : list op) : mstate * list (out * list dump) :=
     match ops with
     | [] => (st, [])
-    | o :: rest => let '(st1, x, ds) := step_dump st o in
-                   let '(st2, tr) := run st1 rest in (st2, (x, ds) :: tr)
+    | o :: rest => let '(st1, x, ds) := step_dump compact st o in
+                   let '(st2, tr) := run compact st1 rest in (st2, (x, ds) :: tr)
     end.
 End Model.
 
@@ -825,4 +903,4 @@ Definition x_add (f : xfilter) (k : bytes * bytes) : xfilter := if x_may f k the
 
 Definition xstate := mstate xfilter.
 Definition xinit : xstate := st_init xfilter [].
-Definition xrun (ops : list op) := run xfilter [] x_may x_add xinit ops.
+Definition xrun (compact : bool) (ops : list op) := run xfilter [] x_may x_add compact xinit ops.
